@@ -1,4 +1,62 @@
-(* C01 — placeholder while the proofs are being built; replaced below in this round *)
+(* C01 — every SM83 instruction has its documented effect on registers, flags and memory.
+   Statements only; each is closed by [exact] of a lemma proved in proofs/. *)
 From V.lib Require Import Bits.
-Theorem C01_placeholder : True. Proof. exact I. Qed.
-Print Assumptions C01_placeholder.
+From V.model Require Import Uop Alu Cpu CpuTables.
+From V.gen Require Import GenDaa.
+From V.spec Require Import Sm83Spec.
+From V.proofs Require Import AluProofs CpuLemmas ExpectedDispatch CpuTablesOk CpuProofs.
+
+(* For every bus (any type B with read/write/interrupt interface; the OAM-bug hooks assumed inert, see C17), every
+   well-formed CPU state at an instruction boundary at which an instruction starts, and every defined opcode at PC on
+   either page: running the model (whose opcode tables are regenerated from dispatch.go) to the next boundary gives
+   exactly the architectural state A,B,C,D,E,H,L,F,SP,PC (and the halted/stopped/EI-pending flags) and exactly the bus
+   the documented semantics gives - "and changes nothing else": the bus is abstract, so every read and write performed,
+   in order, is part of the equality. *)
+Theorem C01_effect :
+  forall (B : Type) (brd : B -> N -> B * N) (bwr : B -> N -> N -> B) (btrig : B -> N -> B) (bcorrupt : B -> B)
+         (bime : B -> bool) (bset_ime : B -> bool -> B) (bpending : B -> N) (back : B -> N -> B),
+    (forall b a, btrig b a = b) -> (forall b, bcorrupt b = b) ->
+  forall s b,
+    starts gen_tables B bime bpending s b -> wf s -> byte_bus B brd -> defined_at B brd s b ->
+    agrees B (run_instr gen_tables B brd bwr btrig bcorrupt bime bset_ime bpending back s b)
+             (spec_instr B brd bwr bset_ime bime bpending (arch_of s) b).
+Proof. exact instr_refines. Qed.
+Print Assumptions C01_effect.
+
+(* The opcode tables regenerated from the Go source on this run are the micro-programs the per-opcode proofs are about. *)
+Theorem C01_tables : gen_tables = expected_tables.
+Proof. exact gen_tables_ok. Qed.
+Print Assumptions C01_tables.
+
+(* The low four bits of F are zero (and every register stays within its width) after every instruction, including
+   POP AF: well-formedness is an invariant of instruction execution. *)
+Theorem C01_flags_low_nibble :
+  forall (B : Type) (brd : B -> N -> B * N) (bwr : B -> N -> N -> B) (btrig : B -> N -> B) (bcorrupt : B -> B)
+         (bime : B -> bool) (bset_ime : B -> bool -> B) (bpending : B -> N) (back : B -> N -> B),
+    (forall b a, btrig b a = b) -> (forall b, bcorrupt b = b) -> byte_bus B brd ->
+  forall s b,
+    starts gen_tables B bime bpending s b -> wf s -> defined_at B brd s b ->
+    wf (fst (fst (run_instr gen_tables B brd bwr btrig bcorrupt bime bset_ime bpending back s b))).
+Proof. exact run_instr_wf. Qed.
+Print Assumptions C01_flags_low_nibble.
+
+Example C01_init_wf : wf cpu_init.
+Proof. unfold wf, wf_f; cbn. repeat split; reflexivity. Qed.
+
+(* 8-bit arithmetic: the Go bit tricks equal the documented arithmetic for every A, operand and flag nibble
+   (exhaustive, 2^20 cases per operation), 16-bit ADD HL for all 2^32 operand pairs, ADD SP,e for every SP and e. *)
+Theorem C01_alu : forall o a u f, a < 256 -> u < 256 -> wf_f f -> alu o a u f = alu_doc o a u f.
+Proof. exact alu_ok. Qed.
+Print Assumptions C01_alu.
+Theorem C01_addhl : forall hl u f, wf_f f -> alu_addhl hl u f = addhl_doc hl u f.
+Proof. exact addhl_ok. Qed.
+Theorem C01_addsp : forall spv e f, e < 256 -> wf_f f -> alu_addsp spv e f = addsp_doc spv e.
+Proof. exact addsp_ok. Qed.
+
+(* DAA: the model and the documented BCD adjustment both reproduce every row of the repository's daa.csv, and the
+   table lists every (A, N/H/C) input. *)
+Theorem C01_daa_table : forallb daa_row_ok daa_rows = true.
+Proof. exact daa_table_ok. Qed.
+Theorem C01_daa_table_complete : daa_inputs_present = true.
+Proof. exact daa_table_complete. Qed.
+Print Assumptions C01_daa_table.
